@@ -9,6 +9,7 @@ import Pxv.Driver.Config
 import Pxv.Driver.Ty
 import Pxv.Driver.Domain
 import Pxv.Driver.Bp
+import Pxv.Driver.Router
 open Pxv.Driver
 
 def main (args : List String) : IO UInt32 := do
@@ -24,4 +25,5 @@ def main (args : List String) : IO UInt32 := do
   | ["ty"] => serve Pxv.Ty.handle; return 0
   | ["domain"] => serve Pxv.Domain.handle; return 0
   | ["bp"] => serve Pxv.Bp.handle; return 0
+  | ["router"] => serve Pxv.Router.handle; return 0
   | _ => IO.eprintln "usage: pxmodel <model>"; return 2
